@@ -26,6 +26,24 @@ pub enum Pat {
     Far,
     /// a lonely event very far ahead (up to 2e7 buckets): rare, at most one per history
     MegaFar,
+    /// an event at `Duration::MAX` ("never"): it can be scheduled, cancelled and dropped with the queue, but no fetch can
+    /// reach it (the scan would have to walk ~1e19 s of buckets), so histories never fetch while only such events are left
+    Never,
+}
+
+/// model time of an event scheduled at `Duration::MAX`
+pub const NEVER: u64 = u64::MAX;
+/// index of the bucket an event of this model time is filed in
+fn bucket_index(time: u64, n: u64, t: u64) -> u64 {
+    let year = u128::from(n.max(1)) * u128::from(t.max(1));
+    ((to_dur(time).as_nanos() % year) / u128::from(t.max(1))) as u64
+}
+fn to_dur(time: u64) -> Duration {
+    if time == NEVER {
+        Duration::MAX
+    } else {
+        Duration::from_nanos(time)
+    }
 }
 
 #[derive(Serialize, Deserialize, Clone, Debug, PartialEq, Eq, Hash)]
@@ -206,6 +224,41 @@ impl Payload for B100 {
     fn intact(&self) -> bool {
         let id = self.id();
         self.bytes.iter().enumerate().skip(8).all(|(i, b)| *b == (id as u8).wrapping_mul(31).wrapping_add(i as u8))
+    }
+}
+
+/// A payload sized so that its list node is exactly 8 bytes smaller than the page (N = page - 52): the tail such a node
+/// leaves of a fresh page cannot hold a free-list header.
+pub struct Edge<const N: usize> {
+    bytes: [u8; N],
+}
+impl<const N: usize> Edge<N> {
+    fn id(&self) -> u64 {
+        u64::from_le_bytes(self.bytes[0..8].try_into().unwrap())
+    }
+}
+impl<const N: usize> Drop for Edge<N> {
+    fn drop(&mut self) {
+        note_drop(self.id());
+    }
+}
+impl<const N: usize> Payload for Edge<N> {
+    const ID_BITS: u32 = 64;
+    const COUNTS_DROPS: bool = true;
+    fn make(id: u64) -> Self {
+        let mut bytes = [0u8; N];
+        bytes[0..8].copy_from_slice(&id.to_le_bytes());
+        for (i, b) in bytes.iter_mut().enumerate().skip(8) {
+            *b = (id as u8).wrapping_mul(29).wrapping_add(i as u8);
+        }
+        Edge { bytes }
+    }
+    fn key(&self) -> u64 {
+        self.id()
+    }
+    fn intact(&self) -> bool {
+        let id = self.id();
+        self.bytes.iter().enumerate().skip(8).all(|(i, b)| *b == (id as u8).wrapping_mul(29).wrapping_add(i as u8))
     }
 }
 
@@ -460,6 +513,9 @@ pub fn max_delta(t_ns: u64) -> u64 {
 }
 
 fn resolve(pat: &Pat, a: u64, now: u64, n: u64, t: u64, pending_times: &dyn Fn(u64) -> Option<u64>, all_times: &dyn Fn(u64) -> Option<u64>) -> u64 {
+    if *pat == Pat::Never {
+        return NEVER;
+    }
     let year = n.saturating_mul(t);
     let k = 1 + a % 3;
     let bucket_start = now / t * t;
@@ -479,7 +535,7 @@ fn resolve(pat: &Pat, a: u64, now: u64, n: u64, t: u64, pending_times: &dyn Fn(u
         Pat::YearP1 => now.saturating_add(k.saturating_mul(year)).saturating_add(1),
         Pat::Tie => pending_times(a).unwrap_or(now.saturating_add(a % t.max(1))),
         Pat::TieAll => all_times(a).unwrap_or(now),
-        Pat::Far | Pat::MegaFar => now.saturating_add(a),
+        Pat::Far | Pat::MegaFar | Pat::Never => now.saturating_add(a),
     };
     let raw = raw.max(now);
     // keep the bucket scan of a single fetch bounded
@@ -500,6 +556,30 @@ pub fn execute(prog: &FesProgram, prop: &str) -> RunInfo {
         "box" => exec_typed::<Bx>(prog, prop),
         "zst" => exec_typed::<Zst>(prog, prop),
         "ptok" => exec_typed::<PTok>(prog, prop),
+        "edge" => {
+            // the node of Edge<page - 52> occupies page - 8 bytes; the page size is forced to the one the type is made for
+            let mut p = prog.clone();
+            let page = if prog.page_size == 0 { 4096 } else { prog.page_size.next_power_of_two().clamp(512, 16384) };
+            match page {
+                512 => {
+                    p.page_size = 512;
+                    exec_typed_opt::<Edge<460>>(&p, prop, true)
+                }
+                1024 => {
+                    p.page_size = 1024;
+                    exec_typed_opt::<Edge<972>>(&p, prop, true)
+                }
+                2048 | 4096 => {
+                    // page_size 0 (the system's page size) stays 0: on this platform that is 4096 as well
+                    p.page_size = if prog.page_size == 0 { 0 } else { 4096 };
+                    exec_typed_opt::<Edge<4044>>(&p, prop, true)
+                }
+                _ => {
+                    p.page_size = 16384;
+                    exec_typed_opt::<Edge<16332>>(&p, prop, true)
+                }
+            }
+        }
         _ => exec_typed::<u64>(prog, prop),
     }
 }
@@ -511,6 +591,10 @@ fn node_fits<P>(page: usize) -> bool {
 }
 
 fn exec_typed<P: Payload>(prog: &FesProgram, prop: &str) -> RunInfo {
+    exec_typed_opt::<P>(prog, prop, false)
+}
+
+fn exec_typed_opt<P: Payload>(prog: &FesProgram, prop: &str, exact_page: bool) -> RunInfo {
     let mut info = RunInfo::default();
     DROPS.with(|d| d.borrow_mut().clear());
     ZST_DROPS.with(|z| *z.borrow_mut() = 0);
@@ -520,7 +604,10 @@ fn exec_typed<P: Payload>(prog: &FesProgram, prop: &str) -> RunInfo {
     let n = prog.n.max(1);
     let t = prog.t_ns.max(1);
     let mut page = prog.page_size;
-    if page != 0 {
+    if exact_page {
+        info.probe("node_of_page_size_minus_8");
+    }
+    if page != 0 && !exact_page {
         page = page.next_power_of_two().clamp(256, 1 << 20);
         while !node_fits::<P>(page) {
             page *= 2;
@@ -564,6 +651,7 @@ fn run_ops<P: Payload>(prog: &FesProgram, prop: &str, n: usize, t: u64, page: us
     let mut entries: Vec<Entry<P>> = Vec::new();
     let mut now: u64 = 0;
     let mut pending: usize = 0;
+    let mut pending_never: usize = 0;
     let mut th = TraceHash::default();
     let mut any_cancel = false;
     let mut fetch_after_cancel = false;
@@ -593,7 +681,7 @@ fn run_ops<P: Payload>(prog: &FesProgram, prop: &str, n: usize, t: u64, page: us
     loop {
         let op: FesOp = if step < total_ops {
             prog.ops[step].clone()
-        } else if (prog.drain || want_c03) && pending > 0 {
+        } else if (prog.drain || want_c03) && pending > pending_never {
             FesOp::Fetch
         } else {
             break;
@@ -638,9 +726,13 @@ fn run_ops<P: Payload>(prog: &FesProgram, prop: &str, n: usize, t: u64, page: us
                     wrap_seen = true;
                     info.probe("add_beyond_year");
                 }
-                let h = q.add(Duration::from_nanos(time), P::make(id));
+                let h = q.add(to_dur(time), P::make(id));
                 entries.push(Entry { time, st: St::Pending, zero, handle: Some(h) });
                 pending += 1;
+                if time == NEVER {
+                    pending_never += 1;
+                    info.probe("event_at_duration_max");
+                }
                 th.push(1 + u64::from(zero) * 2);
             }
             FesOp::Cancel { sel, k } => {
@@ -650,7 +742,7 @@ fn run_ops<P: Payload>(prog: &FesProgram, prop: &str, n: usize, t: u64, page: us
                     th.push(20);
                     continue;
                 }
-                let bucket_of = |time: u64| (time % ((n as u64).saturating_mul(t)).max(1)) / t;
+                let bucket_of = |time: u64| bucket_index(time, n as u64, t);
                 let cands: Vec<usize> = match sel {
                     Sel::Any => pend.clone(),
                     Sel::AtNow => pend.iter().copied().filter(|&i| entries[i].time == now && !entries[i].zero).collect(),
@@ -687,6 +779,9 @@ fn run_ops<P: Payload>(prog: &FesProgram, prop: &str, n: usize, t: u64, page: us
                 q.cancel(h);
                 entries[i].st = St::Cancelled;
                 pending -= 1;
+                if entries[i].time == NEVER {
+                    pending_never -= 1;
+                }
                 any_cancel = true;
                 th.push(21);
                 if want_c15 && P::COUNTS_DROPS && P::ID_BITS == 64 && drops_of(i as u64) > 1 {
@@ -706,6 +801,11 @@ fn run_ops<P: Payload>(prog: &FesProgram, prop: &str, n: usize, t: u64, page: us
                 th.push(31);
             }
             FesOp::Fetch => {
+                if pending > 0 && pending == pending_never {
+                    // only events at Duration::MAX are left: out of reach of any fetch
+                    th.push(41);
+                    continue;
+                }
                 if pending == 0 {
                     // fetch is only defined on a non-empty queue
                     if !q.is_empty() && want_c01 {
@@ -915,8 +1015,7 @@ fn run_ops<P: Payload>(prog: &FesProgram, prop: &str, n: usize, t: u64, page: us
     let times: Vec<u64> = entries.iter().map(|e| e.time).collect();
     let mut victim_bucket: Option<u64> = None;
     if let Some(v) = PANIC_ON.with(|p| *p.borrow()) {
-        let year = (n as u64).saturating_mul(t).max(1);
-        victim_bucket = Some((times[v as usize] % year) / t);
+        victim_bucket = Some(bucket_index(times[v as usize], n as u64, t));
     }
     drop(entries);
     let unwind = prog.drop_in_unwind && prog.drop_panic.is_none();
@@ -945,8 +1044,7 @@ fn run_ops<P: Payload>(prog: &FesProgram, prop: &str, n: usize, t: u64, page: us
                 if d == 0 && destructor_panicked {
                     // a panicking destructor may cost the payloads queued behind it in the same bucket (never corrupt or
                     // double-drop them); everything in other buckets must still be dropped
-                    let year = (n as u64).saturating_mul(t).max(1);
-                    if victim_bucket == Some((times[id] % year) / t) {
+                    if victim_bucket == Some(bucket_index(times[id], n as u64, t)) {
                         continue;
                     }
                 }
@@ -995,6 +1093,7 @@ pub fn generate(prop: &str, rng: &mut Rng, tier: Tier) -> FesProgram {
     let t_ns = *rng.pick(&TS);
 
     let payload: &str = match prop {
+        "C15" if rng.chance(1, 12) => "edge",
         "C15" => PAYLOADS[rng.usize(PAYLOADS.len())],
         _ => {
             if rng.chance(9, 10) {
@@ -1083,6 +1182,13 @@ pub fn generate(prop: &str, rng: &mut Rng, tier: Tier) -> FesProgram {
     if prop == "C01" && rng.chance(1, 100) && !ops.is_empty() {
         let pos = rng.usize(ops.len());
         ops.insert(pos, FesOp::Add { pat: Pat::MegaFar, a: rng.below(t_ns.saturating_mul(3_000_000).max(1)) });
+    }
+    // now and then events scheduled at Duration::MAX ("never"): they are cancelled or dropped with the queue
+    if (prop == "C01" || prop == "C15") && rng.chance(1, 10) {
+        for _ in 0..1 + rng.small(2) {
+            let pos = rng.usize(ops.len() + 1);
+            ops.insert(pos, FesOp::Add { pat: Pat::Never, a: 0 });
+        }
     }
     let drain = if prop == "C15" { rng.chance(1, 2) } else { rng.chance(9, 10) };
     let inv_every = if n <= 64 { 1 } else { 1 + (n as u32 / 64) };
